@@ -152,6 +152,47 @@ def _rejection_loop(inner) -> ast.For:
     return cands[0]
 
 
+def _rejection_step(inner):
+    """("loop", per-window loop) or ("vector", [mask stores at iteration level])."""
+    loop = _iteration_loop(inner)
+    cands = [st for st in loop.body if isinstance(st, ast.For) and _mask_elem_stores(st)]
+    vec = [st for st in loop.body if isinstance(st, ast.Assign) and st in _mask_elem_stores(st)]
+    if len(cands) == 1 and not vec:
+        return "loop", cands[0]
+    if not cands and vec:
+        return "vector", vec
+    raise AnalysisError(f"{INNER}: rejection step not recognised ({len(cands)} per-window loop(s), {len(vec)} vector store(s))")
+
+
+EP = sp.Function("epoch")
+
+
+def _iteration_table(prog: Program, inner):
+    """Decision table of one iteration; calls on `hvsr` are tagged with the number of mask updates that precede them."""
+    from ..pathtable import PathTable
+    loop = _iteration_loop(inner)
+    cls = prog.cls("HvsrTraditional")
+    base = pkg_call_hook(prog, inner.module, cls, self_name="hvsr")
+    kind, step = _rejection_step(inner)
+    step_ids = {id(step)} if kind == "loop" else {id(x) for x in step}
+    pt = PathTable(prog, inner.module)
+
+    def hook(call, T):
+        r = base(call, T)
+        if r is None:
+            return None
+        if isinstance(call.func, ast.Attribute) and isinstance(call.func.value, ast.Name) and call.func.value.id == "hvsr":
+            leaf = getattr(pt, "cur_leaf", None)
+            n = 0
+            if leaf is not None:
+                n = 1 if any(id(e[3]) in step_ids for e in leaf.events) else 0
+            return r.func(*r.args, EP(sp.Integer(n)))
+        return r
+    pt.user_hook = hook
+    leaves = pt.leaves(loop.body)
+    return loop, kind, step, leaves
+
+
 def _loop_bindings(rl: ast.For):
     """(index variable, {name: attribute of hvsr it iterates}) for enumerate/zip/range headers."""
     idx, binds = None, {}
@@ -177,7 +218,12 @@ def _loop_bindings(rl: ast.For):
 
 
 def _r4_r5(ck: Checker, prog: Program, inner):
-    rl = _rejection_loop(inner)
+    kind, step = _rejection_step(inner)
+    if kind == "vector":
+        _r4_r5_vector(ck, prog, inner, step)
+        S.check_mask_lockstep(ck, prog, "C06.R5", modules=("window_rejection",), floor=6)
+        return
+    rl = step
     idx, binds = _loop_bindings(rl)
     if idx is None:
         raise AnalysisError(f"{INNER}: the per-window loop has no recognisable index variable")
@@ -239,6 +285,45 @@ def _r4_r5(ck: Checker, prog: Program, inner):
     S.check_mask_lockstep(ck, prog, "C06.R5", modules=("window_rejection",), floor=8)
 
 
+def _bounds(leaf_env_value):
+    return leaf_env_value
+
+
+def _vector_facts(prog: Program, inner):
+    """For the vectorised rejection step: (leaves, stores as (mask attr, index value, stored value, stmt))."""
+    loop, kind, step, leaves = _iteration_table(prog, inner)
+    l = leaves[0]
+    out = []
+    for e in l.events:
+        if e[0] == "store" and id(e[3]) in l.store_at:
+            base, idx = l.store_at[id(e[3])]
+            out.append((str(base), idx, e[2], e[3]))
+    return leaves, out
+
+
+def _r4_r5_vector(ck: Checker, prog: Program, inner, stores):
+    leaves, facts = _vector_facts(prog, inner)
+    PK = sp.Symbol("hvsr.valid_peak_boolean_mask", real=True)
+    cand = [sp.Function("flatnonzero")(PK), sp.Function("getitem")(sp.Function("where")(PK), sp.Integer(0)), sp.Function("getitem")(sp.Function("nonzero")(PK), sp.Integer(0)), PK]
+    masks = {}
+    for base, idx, val, st in facts:
+        if not base.startswith("hvsr.valid_"):
+            continue
+        masks[base] = (idx, val, st)
+        if idx in cand:
+            ck.ok("C06.R4", INNER, norm_key(st), detail="only entries whose peak-mask value is currently true are written")
+        else:
+            ck.violation("C06.R4", INNER, norm_key(st),
+                         f"this store writes mask entries {idx}: entries of windows that are currently rejected can be set (re-accepted)", loc=inner.loc(st))
+    ck.floor("C06.R4", len(masks), 2, "mask stores of the rejection step")
+    vals = {str(v[1]) for v in masks.values()}
+    idxs = {str(v[0]) for v in masks.values()}
+    if set(masks) == {"hvsr.valid_window_boolean_mask", "hvsr.valid_peak_boolean_mask"} and len(vals) == 1 and len(idxs) == 1:
+        ck.ok("C06.R5", INNER, "both masks receive the same decisions for the same windows")
+    else:
+        ck.violation("C06.R5", INNER, "mask stores of the rejection step", f"the two accept masks are not given the same decisions for the same windows ({sorted(masks)})", loc=inner.loc(stores[0]))
+
+
 def _canon(r):
     if isinstance(r, sp.Lt):
         return sp.Gt(r.rhs, r.lhs, evaluate=False)
@@ -248,102 +333,150 @@ def _canon(r):
 
 
 def _r6_inner(ck: Checker, prog: Program, inner):
-    loop = _iteration_loop(inner)
-    rl = _rejection_loop(inner)
-    cls = prog.cls("HvsrTraditional")
-    hook = pkg_call_hook(prog, inner.module, cls, self_name="hvsr")
-    T = Translator(call_hook=hook)
-    body_assigns = [st for st in loop.body if isinstance(st, ast.Assign)]
-    forward_substitute(body_assigns, T)
+    from ..pathtable import literals, same_rel, negate
+    loop, kind, step, leaves = _iteration_table(prog, inner)
+    R = lambda n: sp.Symbol(n, real=True)   # noqa: E731
+    H, DFN, DMC, N = R("hvsr"), R("distribution_fn"), R("distribution_mc"), R("n")
+    gi = sp.Function("getitem")
 
-    def ex(src):
-        return Translator(call_hook=hook).tr(ast.parse(src, mode="eval").body)
-    item = sp.Function("item")
-    mean = ex("hvsr.mean_fn_frequency(distribution_fn)")
-    std = ex("hvsr.std_fn_frequency(distribution_fn)")
-    mcp = item(ex("hvsr.mean_curve_peak(distribution_mc)"), sp.Integer(0))
-    wants = {
-        "mean_fn_before": mean, "std_fn_before": std, "mc_peak_frq_before": mcp, "diff_before": sp.Abs(mean - mcp),
-        "mean_fn_after": mean, "std_fn_after": std, "mc_peak_frq_after": mcp, "d_after": sp.Abs(mean - mcp),
-        "lower_bound": ex("hvsr.nth_std_fn_frequency(-n, distribution_fn)"),
-        "upper_bound": ex("hvsr.nth_std_fn_frequency(+n, distribution_fn)"),
-    }
-    for nm, w in wants.items():
-        g = T.env.get(nm)
-        if g is not None and equal(g, w):
-            ck.ok("C06.R6", INNER, f"{nm} = {w}")
+    def mean(e):
+        return sp.Function("mean_fn_frequency")(H, DFN, EP(sp.Integer(e)))
+
+    def std(e):
+        return sp.Function("std_fn_frequency")(H, DFN, EP(sp.Integer(e)))
+
+    def mcp(e):
+        return gi(sp.Function("mean_curve_peak")(H, DMC, EP(sp.Integer(e))), sp.Integer(0))
+    LO = sp.Function("nth_std_fn_frequency")(H, -N, DFN, EP(sp.Integer(0)))
+    HI = sp.Function("nth_std_fn_frequency")(H, N, DFN, EP(sp.Integer(0)))
+    DB, DA = sp.Abs(mean(0) - mcp(0)), sp.Abs(mean(1) - mcp(1))
+    DD, SD = sp.Abs(DA - DB) / DB, sp.Abs(std(1) - std(0))
+    tol = sp.Rational(1, 100)
+    # ---- acceptance test
+    PKF = R("hvsr._main_peak_frq")
+    if kind == "vector":
+        _leaves, facts = _vector_facts(prog, inner)
+        for base, idx, val, st in facts:
+            if not base.startswith("hvsr.valid_"):
+                continue
+            pk = gi(PKF, idx)
+            want = sp.And(sp.Gt(pk, LO, evaluate=False), sp.Lt(pk, HI, evaluate=False))
+            rels = {(_canon(a).func, str(_canon(a).lhs), str(_canon(a).rhs)) for a in (val.args if isinstance(val, sp.And) else [])}
+            wrel = {(_canon(a).func, str(_canon(a).lhs), str(_canon(a).rhs)) for a in want.args}
+            if rels == wrel:
+                ck.ok("C06.R6", INNER, norm_key(st), detail="keep iff lower_bound < peak < upper_bound (strict), bounds from the statistics before the step")
+            else:
+                ck.violation("C06.R6", INNER, norm_key(st), f"the decision stored is {val}; expected {want}", loc=inner.loc(st))
+    else:
+        rl = step
+        snap = None
+        for l in leaves:
+            if id(rl) in l.snaps:
+                snap = l.snaps[id(rl)][0]
+        if snap is None:
+            raise AnalysisError(f"{INNER}: the per-window loop is not reached")
+        tests = [st for st in rl.body if isinstance(st, ast.If) and any(isinstance(x, ast.Assign) for x in ast.walk(st))]
+        if len(tests) != 1:
+            raise AnalysisError(f"{INNER}: acceptance test not found")
+        idx_, binds_ = _loop_bindings(rl)
+        pk = [n for n, a in binds_.items() if a == "_main_peak_frq"]
+        env = {k: v for k, v in snap.items()}
+        CP = sp.Symbol("<peak of the window>", real=True)
+        if pk:
+            env[pk[0]] = CP
         else:
-            ck.violation("C06.R6", INNER, nm, f"`{nm}` is {g}; the published algorithm uses {w}", loc=inner.loc(loop))
-    # before-statistics are evaluated before the rejection loop, after-statistics after it
-    for st in body_assigns:
-        nm = unparse(st.targets[0])
-        first = nm.split(",")[0].strip("() ")
-        if first.endswith("_before") or first in ("lower_bound", "upper_bound"):
-            if st.lineno > rl.lineno:
-                ck.violation("C06.R6", INNER, norm_key(st), f"`{first}` is evaluated after the windows of this iteration were rejected", loc=inner.loc(st))
-        if first.endswith("_after"):
-            if st.lineno < rl.end_lineno:
-                ck.violation("C06.R6", INNER, norm_key(st), f"`{first}` is evaluated before the windows of this iteration were rejected", loc=inner.loc(st))
-    # acceptance test
-    tests = [st for st in rl.body if isinstance(st, ast.If) and any(isinstance(x, ast.Assign) for x in ast.walk(st))]
-    if len(tests) != 1:
-        raise AnalysisError(f"{INNER}: acceptance test not found")
-    TT = Translator()
-    cond = TT.tr(tests[0].test)
-    idx_, binds_ = _loop_bindings(rl)
-    pk = [n for n, a in binds_.items() if a == "_main_peak_frq"]
-    cp = TT.sym(pk[0]) if pk else TT.tr(ast.parse(f"hvsr._main_peak_frq[{idx_}]", mode="eval").body)
-    lo, hi = TT.sym("lower_bound"), TT.sym("upper_bound")
-    rels = [_canon(a) for a in cond.args] if isinstance(cond, sp.And) else []
-    want = {(sp.Gt, str(cp), str(lo)), (sp.Gt, str(hi), str(cp))}
-    got = {(type(r), str(r.lhs), str(r.rhs)) for r in rels}
-    accept_true = any(isinstance(x, ast.Assign) and isinstance(x.value, ast.Constant) and x.value.value is True for b in tests[0].body for x in ast.walk(b))
-    reject_else = any(isinstance(x, ast.Assign) and isinstance(x.value, ast.Constant) and x.value.value is False for b in tests[0].orelse for x in ast.walk(b))
-    if got == want and accept_true and reject_else:
-        ck.ok("C06.R6", INNER, norm_key(tests[0]), detail="keep iff lower_bound < peak < upper_bound (strict)")
+            env[f"hvsr._main_peak_frq[{idx_}]"] = CP
+        cond = Translator(env=env).tr(tests[0].test)
+        rels = {(_canon(a).func, str(_canon(a).lhs), str(_canon(a).rhs)) for a in (cond.args if isinstance(cond, sp.And) else [])}
+        want = {(sp.Gt, str(CP), str(LO)), (sp.Gt, str(HI), str(CP))}
+        accept_true = any(isinstance(x, ast.Assign) and isinstance(x.value, ast.Constant) and x.value.value is True for b in tests[0].body for x in ast.walk(b))
+        reject_else = any(isinstance(x, ast.Assign) and isinstance(x.value, ast.Constant) and x.value.value is False for b in tests[0].orelse for x in ast.walk(b))
+        if rels == want and accept_true and reject_else:
+            ck.ok("C06.R6", INNER, norm_key(tests[0]), detail="keep iff lower_bound < peak < upper_bound (strict); bounds = nth_std_fn_frequency(-n / +n, distribution_fn) before the step")
+        else:
+            ck.violation("C06.R6", INNER, norm_key(tests[0]),
+                         f"acceptance test is {cond} (true branch accepts: {accept_true}, else rejects: {reject_else}); expected {LO} < peak < {HI}, strict",
+                         loc=inner.loc(tests[0]))
+    # ---- convergence: the iteration returns exactly when the zero guard holds or both changes are below 0.01
+    rets = [l for l in leaves if l.exit == "return"]
+    cont = [l for l in leaves if l.exit != "return" and l.exit != "raise"]
+    conv = []
+    zero = []
+    other = []
+    zero_alts = [sp.Eq(DB, 0, evaluate=False), sp.Eq(std(0), 0, evaluate=False), sp.Eq(std(1), 0, evaluate=False)]
+    for l in rets:
+        lits = literals(l)
+        if any(same_rel(x, sp.Gt(tol, DD, evaluate=False)) for x in lits) and any(same_rel(x, sp.Gt(tol, SD, evaluate=False)) for x in lits):
+            conv.append(l)
+        elif any(same_rel(y, z) for x in lits for y in (x.args if isinstance(x, sp.Or) else [x]) for z in zero_alts):
+            zero.append(l)
+        else:
+            other.append(l)
+    if conv and not other:
+        ck.ok("C06.R6", INNER, "converged iff |d_after - d_before|/d_before < 0.01 and |std_after - std_before| < 0.01",
+              detail=f"d = |mean_fn_frequency - mean_curve_peak[0]|; before/after the rejection step; {len(conv)} converging path(s)")
     else:
-        ck.violation("C06.R6", INNER, norm_key(tests[0]),
-                     f"acceptance test is {cond} (true branch accepts: {accept_true}, else rejects: {reject_else}); expected lower < peak < upper, strict",
-                     loc=inner.loc(tests[0]))
-    # convergence
-    d_diff, s_diff = T.env.get("d_diff"), T.env.get("s_diff")
-    w_d = sp.Abs(sp.Abs(mean - mcp) - sp.Abs(mean - mcp))   # symbolic before/after coincide as calls; compare structurally instead
-    T2 = Translator()
-    forward_substitute([st for st in loop.body if isinstance(st, ast.Assign) and unparse(st.targets[0]) in ("d_diff", "s_diff")], T2)
-    dd, sd = T2.env.get("d_diff"), T2.env.get("s_diff")
-    da, db, sa, sb = T2.sym("d_after"), T2.sym("diff_before"), T2.sym("std_fn_after"), T2.sym("std_fn_before")
-    if dd is not None and equal(dd, sp.Abs(da - db) / db):
-        ck.ok("C06.R6", INNER, "d_diff = |d_after - diff_before| / diff_before")
-    else:
-        ck.violation("C06.R6", INNER, "d_diff", f"`d_diff` is {dd}; expected |d_after - diff_before|/diff_before", loc=inner.loc(loop))
-    if sd is not None and (equal(sd, sp.Abs(sa - sb))):
-        ck.ok("C06.R6", INNER, "s_diff = |std_after - std_before| (absolute)")
-    else:
-        ck.violation("C06.R6", INNER, "s_diff", f"`s_diff` is {sd}; the published tolerance on the standard deviation is absolute: |std_after - std_before|",
-                     loc=inner.loc(loop))
-    conv = [st for st in loop.body if isinstance(st, ast.If) and "d_diff" in unparse(st.test)]
-    okc = False
-    if len(conv) == 1:
-        c = Translator().tr(conv[0].test)
-        rels = {(type(_canon(a)), str(_canon(a).lhs), str(_canon(a).rhs)) for a in (c.args if isinstance(c, sp.And) else [])}
-        tol = str(sp.Rational(1, 100))
-        okc = rels == {(sp.Gt, tol, "d_diff"), (sp.Gt, tol, "s_diff")} and any(isinstance(b, ast.Return) for b in conv[0].body)
-    if okc:
-        ck.ok("C06.R6", INNER, norm_key(conv[0]), detail="converged iff d_diff < 0.01 and s_diff < 0.01")
-    else:
-        ck.violation("C06.R6", INNER, "convergence test", "the convergence test is not `(d_diff < 0.01) and (s_diff < 0.01)` followed by return",
-                     loc=inner.loc(conv[0]) if conv else inner.loc(loop))
-    zero = [st for st in loop.body if isinstance(st, ast.If) and "== 0" in unparse(st.test) and any(isinstance(b, ast.Return) for b in st.body)]
-    if len(zero) == 1 and {unparse(v) for v in zero[0].test.values} == {"diff_before == 0", "std_fn_before == 0", "std_fn_after == 0"} \
-            and isinstance(zero[0].test.op, ast.Or) and conv and zero[0].lineno < conv[0].lineno:
-        ck.ok("C06.R6", INNER, norm_key(zero[0]), nontrivial=False)
+        found = [str(literals(l)) for l in (other or rets)][:2]
+        ck.violation("C06.R6", INNER, "convergence test",
+                     f"an iteration does not return exactly when ({DD} < 0.01) and ({SD} < 0.01): returning paths are guarded by {found}", loc=inner.loc(loop))
+    seen_zero = {i for l in zero for i, z in enumerate(zero_alts) if any(same_rel(y, z) for x in literals(l) for y in (x.args if isinstance(x, sp.Or) else [x]))}
+    guarded = all(any(same_rel(x, negate(zero_alts[0])) for x in literals(l)) for l in conv)
+    if guarded and 0 in seen_zero:
+        ck.ok("C06.R6", INNER, "the division by d_before is protected by the zero guard", nontrivial=False)
     else:
         ck.violation("C06.R6", INNER, "zero guard", "the division by diff_before is not protected by the zero guard", loc=inner.loc(loop))
+    # a non-returning iteration must have failed the convergence test
+    for l in cont:
+        lits = literals(l)
+        def failed(x):
+            if isinstance(x, sp.Not) and isinstance(x.args[0], sp.And):
+                parts = list(x.args[0].args)
+                return len(parts) == 2 and any(same_rel(a, sp.Gt(tol, DD, evaluate=False)) for a in parts) and any(same_rel(a, sp.Gt(tol, SD, evaluate=False)) for a in parts)
+            return same_rel(x, sp.Ge(DD, tol, evaluate=False)) or same_rel(x, sp.Ge(SD, tol, evaluate=False))
+        if not any(failed(x) for x in lits):
+            ck.violation("C06.R6", INNER, "convergence test", f"an iteration continues although the convergence test holds (path {lits})", loc=inner.loc(loop))
     rd = reaching(inner)
     for p in ("n", "distribution_fn", "distribution_mc", "hvsr"):
         uses = [x for x in ast.walk(loop) if isinstance(x, ast.Name) and x.id == p and isinstance(x.ctx, ast.Load)]
         if any(not rd.only_param(p, u) for u in uses):
             ck.violation("C06.R6", INNER, f"{p} rebound", f"parameter `{p}` is rebound inside the routine", loc=inner.loc())
+    # ---- the mean-curve peak honours the object's search range; the peak search does not depend on the amplitude scale
+    _peak_search(ck, prog)
+
+
+def _peak_search(ck: Checker, prog: Program):
+    from ..pathtable import PathTable, literals
+    for q in ("hvsr_traditional.HvsrTraditional.mean_curve_peak",):
+        m = prog.func(q)
+        cs = [c for c in calls_in(m.node) if call_name(c) in ("_find_peak_bounded", "_find_peak_unbounded", "find_peaks")]
+        good = len(cs) == 1 and call_name(cs[0]) == "_find_peak_bounded"
+        if good:
+            g = prog.func("hvsr_curve.HvsrCurve._find_peak_bounded")
+            b = bind_call(cs[0], g.params)
+            good = unparse(b.get("search_range_in_hz")) == "self._search_range_in_hz" if b.get("search_range_in_hz") is not None else False
+        if good:
+            ck.ok("C06.R6", q, "the mean-curve peak is searched inside the object's search range")
+        else:
+            ck.violation("C06.R6", q, "search range of the mean-curve peak",
+                         "the peak of the mean curve is not searched with _find_peak_bounded(..., search_range_in_hz=self._search_range_in_hz): "
+                         "the convergence criterion would look outside the search range", loc=m.loc())
+    AMP = sp.Symbol("amplitude", real=True)
+    for q in ("hvsr_curve.HvsrCurve._find_peak_unbounded", "hvsr_curve.HvsrCurve._find_peak_bounded"):
+        f = prog.func(q)
+        leaves = PathTable(prog, f.module).leaves(f.node.body)
+        bad = []
+        for l in leaves:
+            for x in literals(l):
+                y = x.replace(lambda e: getattr(e, "func", None) is not None and getattr(e.func, "__name__", "") in ("find_peaks", "_find_peak_unbounded", "_search_range_to_index_range"),
+                              lambda e: sp.Symbol("<peaks>"))
+                if y.has(AMP):
+                    bad.append(x)
+        if not bad:
+            ck.ok("C06.R6", q, "no decision of the peak search depends on the amplitude values except through find_peaks", detail=f"{len(leaves)} paths")
+        else:
+            ck.violation("C06.R6", q, f"decision {str(bad[0])[:80]}",
+                         f"the peak search decides on `{bad[0]}`, which depends on the absolute amplitude scale: decisions would change when all amplitudes are rescaled",
+                         loc=f.loc())
 
 
 def _r6_outer(ck: Checker, prog: Program, inner, outer):
